@@ -98,7 +98,7 @@ def tlc(spec_dir, module, cfg=None, *, workers=1, env=None, timeout=900, simulat
         depth=None, coverage=False, seed=None, deadlock=False, extra=(), dfs=False, heap="4g"):
     spec_dir = Path(spec_dir)
     meta = tempfile.mkdtemp(prefix="tlcmeta-")
-    cmd = ["java", "-XX:+UseParallelGC", "-Xmx" + heap]
+    cmd = ["java", "-XX:+UseParallelGC", "-Xmx" + heap, "-Xss128m"]
     if dfs:
         cmd.append("-Dtlc2.tool.queue.IStateQueue=StateDeque")
     cmd += ["-cp", TLA_JAR + ":" + TLA_DEPS + ":" + str(SPECS / "lib"), "tlc2.TLC",
@@ -468,6 +468,8 @@ class GenericAdapter:
         return None if got["r"] == pred["r"] else "result"
 
     def compare(self, obs, pobs, st):
+        if isinstance(obs, dict) and "raised" in obs:
+            return "reads-raised:" + str(obs["raised"])
         return first_diff(obs, pobs)
 
     def signature(self, st, op, variant, got, obs, outs):
@@ -598,6 +600,7 @@ def validate_traces_generic(specdir, module, cfg, traces, stats, verdict, subjec
                 sig.update(sig_extra(tr, ev) or {})
             verdict.fail(sig, {"trace_meta": {k: v for k, v in tr.items() if k != "ev"}, "rejected_at_event": p["l"],
                                "event": ev, "spec_state_before": p.get("st"), "spec_expected": exp,
-                               "history": [e["op"] for e in tr["ev"][:p["l"]]]})
+                               "history": [dict(e["op"], _variant=e.get("variant")) if isinstance(e["op"], dict) else e["op"]
+                                           for e in tr["ev"][:p["l"]]]})
     stats.traces_accepted += accepted
     return accepted
